@@ -11,6 +11,7 @@
 
 #include <cstdint>
 #include <cstring>
+#include <limits>
 #include <optional>
 #include <string>
 #include <vector>
@@ -35,6 +36,15 @@ inline bool isControlFrame(WsOpcode op)
   return op == WsOpcode::CLOSE || op == WsOpcode::PING || op == WsOpcode::PONG;
 }
 
+/// \brief Why WebSocketFrame::parse returned no frame.
+enum class WsParseStatus : std::uint8_t
+{
+  Ok,            ///< a frame was returned
+  Incomplete,    ///< more bytes are needed
+  ProtocolError, ///< the header can never become a valid frame (RFC 6455 5.5: close with 1002)
+  TooLarge       ///< the declared payload length exceeds the caller's limit (close with 1009)
+};
+
 /// \brief Parsed WebSocket frame.
 struct WebSocketFrame
 {
@@ -49,7 +59,20 @@ struct WebSocketFrame
   static std::optional<WebSocketFrame> parse(core::BufferView data,
                                              std::size_t& consumed)
   {
+    WsParseStatus status = WsParseStatus::Ok;
+    return parse(data, consumed, status, std::numeric_limits<std::uint64_t>::max());
+  }
+
+  /// \brief Parse a frame and report WHY no frame was returned. A nullopt with
+  /// status Incomplete means "wait for more bytes"; ProtocolError / TooLarge mean
+  /// the connection must be failed - waiting would only buffer without bound.
+  /// \p maxPayload bounds the declared payload length BEFORE any byte of it is
+  /// buffered or allocated.
+  static std::optional<WebSocketFrame> parse(core::BufferView data, std::size_t& consumed,
+                                             WsParseStatus& status, std::uint64_t maxPayload)
+  {
     consumed = 0;
+    status = WsParseStatus::Incomplete;
     if (data.size() < 2)
     {
       return std::nullopt;
@@ -69,6 +92,7 @@ struct WebSocketFrame
       frame.opcode = static_cast<WsOpcode>(byte0 & 0x0F);
       frame.payload.clear();
       consumed = data.size(); // consume all to prevent re-parse
+      status = WsParseStatus::Ok;
       return frame; // caller checks RSV via the raw byte if needed
     }
     frame.opcode = static_cast<WsOpcode>(byte0 & 0x0F);
@@ -83,6 +107,7 @@ struct WebSocketFrame
     {
       if (payloadLen > 125 || !frame.fin)
       {
+        status = WsParseStatus::ProtocolError;
         return std::nullopt; // protocol error — caller should close with 1002
       }
     }
@@ -98,6 +123,12 @@ struct WebSocketFrame
       if (data.size() < pos + 8) return std::nullopt;
       payloadLen = data.readU64BE(pos);
       pos += 8;
+    }
+
+    if (payloadLen > maxPayload)
+    {
+      status = WsParseStatus::TooLarge;
+      return std::nullopt;
     }
 
     // Mask key (4 bytes if masked)
@@ -135,6 +166,7 @@ struct WebSocketFrame
 
     pos += static_cast<std::size_t>(payloadLen);
     consumed = pos;
+    status = WsParseStatus::Ok;
     return frame;
   }
 
